@@ -653,27 +653,44 @@ mod verif_hashtbl {
         core::mem::forget(t);
     }
     /// reserve exhausted (free == slots/4): rehash in place (tombstones are purged), 16 -> 16
-    #[kani::proof]
-    #[kani::unwind(17)]
-    #[kani::stub(RawTable::next_capacity, next_capacity_class_16)]
-    fn find_or_find_insert_slot_16_rehash() {
+    fn fofis_rehash_case(nk: u8) {
         let h: H = kani::any();
-        let mut t = any_wf16(&h);
+        let mut t = any_table::<16>(&h, nk);
+        kani::assume(wf(&t, &h, nk));
         kani::assume(t.free < 16 / 4 + 1);
-        let k = any_key();
+        let k: u8 = kani::any();
+        kani::assume(k < nk);
         let old_view = view(&t);
         let old_len = t.len;
         let r = t.find_or_find_insert_slot(hash_of(&h, k), |&x| x == k);
         assert!(t.data.len() == 16);
-        assert_wf(&t, &h, NK);
+        assert_wf(&t, &h, nk);
         assert!(view(&t) == old_view && t.len == old_len);
         assert!(free_exact(&t) && t.free == 16 - old_len);
         assert!(t.free >= 16 / 4 + 1); // the reserve(1) guarantee
         check_fofis_result::<16>(&t, &h, k, r, old_view);
         kani::cover!(r.is_ok());
-        kani::cover!(r.is_err() && old_len == 4);
-        kani::cover!(old_len == NK as usize);
+        kani::cover!(r.is_err() && old_len == nk as usize - 1);
+        kani::cover!(old_len == nk as usize);
         core::mem::forget(t);
+    }
+    #[kani::proof]
+    #[kani::unwind(17)]
+    #[kani::stub(RawTable::next_capacity, next_capacity_class_16)]
+    fn find_or_find_insert_slot_16_rehash() {
+        fofis_rehash_case(NK);
+    }
+    #[kani::proof]
+    #[kani::unwind(17)]
+    #[kani::stub(RawTable::next_capacity, next_capacity_class_16)]
+    fn dev_rehash_nk2() {
+        fofis_rehash_case(2);
+    }
+    #[kani::proof]
+    #[kani::unwind(17)]
+    #[kani::stub(RawTable::next_capacity, next_capacity_class_16)]
+    fn dev_rehash_nk3() {
+        fofis_rehash_case(3);
     }
     /// growth 16 -> 32: table holds 12 elements (key universe 0..13), 4 FREE slots
     #[kani::proof]
